@@ -280,9 +280,11 @@ class MonitorPool(Module):
             basis. Its monitors are however deleted.
         """
         if name in self.monitors_:
-            for monitor in self.monitors_[name].values():
-                monitor.deregister()
+            group = self.monitors_[name]
             del self.monitors_[name]
+            for monitor in group.values():
+                if not any(m is monitor for m in self.monitors):
+                    monitor.deregister()
 
         if name in self.observed_:
             del self.observed_[name]
@@ -382,9 +384,11 @@ class MonitorPool(Module):
                 f"observable with name '{observed}'"
             )
 
-        # delete the monitor
-        self.monitors_[observed][monitor].deregister()
+        # delete the monitor, deregistering unless it is still pooled by another observable
+        removed = self.monitors_[observed][monitor]
         del self.monitors_[observed][monitor]
+        if not any(m is removed for m in self.monitors):
+            removed.deregister()
 
         # delete group if empty
         if not len(self.monitors_[observed]):
